@@ -69,7 +69,7 @@ def assemble(unit, canary=False):
 
 def run_verus(path, extra=(), timeout=900):
     cmd = [VERUS, os.path.basename(path), '--output-json', '--time', '--error-format=json', '--multiple-errors', '20',
-           '--num-threads', '8'] + list(extra)
+           '--num-threads', '4'] + list(extra)
     t0 = time.time()
     try:
         p = subprocess.run(cmd, cwd=os.path.dirname(path), capture_output=True, text=True, timeout=timeout)
@@ -384,31 +384,37 @@ def main():
     undecided = []
     canaries = {}
 
-    def do_unit(u):
+    def guarded(u, fn, *args):
         spec = UNITS['units'][u]
         try:
-            if spec['kind'] == 'verus':
-                r = verus_unit(u, a.tier)
-                c = None
-                if not a.no_canary:
-                    c = canary_unit(u)
-                return u, r, c
-            return u, kani_unit(u, a.tier), None
+            return fn(*args)
         except (ex.AnchorLoss, rs.ScanError) as e:
             msg = 'anchor loss: %s' % e
         except Undecided as e:
             msg = str(e)
         # the unit could not be decided on this tree (lost anchor, construct outside the verifier's reach, ...)
-        stub = {'unit': u, 'kind': spec['kind'], 'broken': True, 'undecided': [msg.split('\n')[0][:600]], 'failed': {}, 'harnesses': [],
+        return {'unit': u, 'kind': spec['kind'], 'broken': True, 'undecided': [msg.split('\n')[0][:600]], 'failed': {}, 'harnesses': [],
                 'meta': {'obligations': [], 'items': [], 'assumptions_scanned': [], 'assumptions_declared': [], 'map': [], 'lost_hints': []},
                 'cmd': '', 'wall': 0.0, 'detail': msg[:3000]}
-        return u, stub, None
+
+    def do_unit(u):
+        spec = UNITS['units'][u]
+        if spec['kind'] == 'verus':
+            return u, guarded(u, verus_unit, u, a.tier), None
+        return u, guarded(u, kani_unit, u, a.tier), None
+
+    def do_canary(u):
+        try:
+            return u, canary_unit(u)
+        except (ex.AnchorLoss, rs.ScanError, Undecided):
+            return u, None   # the main build of the unit reports the reason
 
     verus_units = [u for u in units if UNITS['units'][u]['kind'] == 'verus']
     kani_units = [u for u in units if UNITS['units'][u]['kind'] == 'kani']
-    with cf.ThreadPoolExecutor(max_workers=5) as pool:
+    with cf.ThreadPoolExecutor(max_workers=8) as pool:
         bf = pool.submit(bounded_search, pid, seed, a.tier) if not a.no_bounded else None
         futs = {pool.submit(do_unit, u): u for u in verus_units}
+        cfuts = [pool.submit(do_canary, u) for u in verus_units] if not a.no_canary else []
         # kani units run sequentially among themselves (shared target dir), concurrently with verus
         def all_kani():
             return [do_unit(u) for u in kani_units]
@@ -416,6 +422,8 @@ def main():
         for f in cf.as_completed(list(futs)):
             u, r, c = f.result()
             results[u] = r
+        for f in cfuts:
+            u, c = f.result()
             if c:
                 canaries[u] = c
         for u, r, c in kf.result():
